@@ -267,6 +267,18 @@ pub fn typed_mutations(rng: &mut StdRng, enc: &[u8]) -> Vec<Vec<u8>> {
                 let mut m = enc[..h.off].to_vec(); head(&mut m, h.major, arg, min_width(arg)); m.extend_from_slice(&enc[h.off + h.hl..]); out.push(m);
             } }
         }
+        // two heads at once, every pair of boundary values (small encodings only): conditions that need two cooperating arguments
+        if enc.len() <= 20 && heads.len() >= 2 && heads.len() <= 4 {
+            for i in 0..heads.len() { for j in i + 1..heads.len() {
+                let (h1, h2) = (heads[i], heads[j]);
+                if h1.info == 31 || h2.info == 31 || h1.off + h1.hl > h2.off { continue }
+                for &a1 in BOUNDARY { for &a2 in BOUNDARY {
+                    let mut m = enc[..h1.off].to_vec(); head(&mut m, h1.major, a1, min_width(a1));
+                    m.extend_from_slice(&enc[h1.off + h1.hl..h2.off]); head(&mut m, h2.major, a2, min_width(a2));
+                    m.extend_from_slice(&enc[h2.off + h2.hl..]); out.push(m);
+                } }
+            } }
+        }
         // definite container -> indefinite without break / with break
         let h = heads[rng.gen_range(0..heads.len())];
         if (h.major == 4 || h.major == 5) && h.info != 31 {
